@@ -1,11 +1,18 @@
+pub mod c01;
 pub mod c02;
+pub mod c03;
+pub mod c13;
+pub mod c14;
+pub mod c15;
+pub mod c16;
+pub mod d00;
 
 use serde_json::{json, Value};
 
 use crate::framework::Check;
 
 pub fn all() -> Vec<&'static dyn Check> {
-    vec![&c02::C02]
+    vec![&c01::C01, &c02::C02, &c03::C03, &c13::C13, &c14::C14, &c15::C15, &c16::C16, &d00::D00]
 }
 
 pub fn components() -> Value {
